@@ -41,14 +41,16 @@ def gen_file(rnd, medium, length=None, unique=None, maxname=12):
     if unique is not None:
         name = ("%d%s" % (unique, name))[:maxname] if medium == "disk" else name
     ext = {"ml": "BIN", "basic": "BAS", "ascii": "BAS", "data": "DAT", "text": "TXT"}[kind][:rnd.choice([3, 3, 3, 2, 1, 0])] if medium == "disk" else ""
-    return {"name": name, "ext": ext, "type": t, "dtype": dt, "load": rnd.choice(ADDR + [rnd.randrange(65536)]),
+    return {"name": name, "ext": ext, "type": t, "dtype": dt, "gaps": rnd.choice([None, None, 0x00, 0xFF]) if medium == "tape" else None,
+            "load": rnd.choice(ADDR + [rnd.randrange(65536)]),
             "exec": rnd.choice(ADDR + [rnd.randrange(65536)]), "data": content(rnd, length).hex(), "kind": kind}
 
 
 def to_coco(spec):
     from cocoasm.virtualfiles.coco_file import CoCoFile
     from cocoasm.values import NumericValue
-    return CoCoFile(name=spec["name"], extension=spec["ext"], type=NumericValue(spec["type"]), data_type=NumericValue(spec["dtype"]),
+    extra = {"gaps": NumericValue(spec["gaps"])} if spec.get("gaps") is not None else {}
+    return CoCoFile(name=spec["name"], extension=spec["ext"], type=NumericValue(spec["type"]), data_type=NumericValue(spec["dtype"]), **extra,
                     load_addr=NumericValue(spec["load"]), exec_addr=NumericValue(spec["exec"]), data=list(bytes.fromhex(spec["data"])))
 
 
